@@ -31,7 +31,7 @@ ASSUMPTIONS = [
 ]
 OPEN_STATEMENTS = [
     'canonicity (linear independence of normal-ordered monomials => equal operators have equal normal forms) is not proved for any algebra: checked by the canonicity stream (oracle) only',
-    'fermions: soundness is proved against the Spec itself (normal_ordered_sound_melF: all matrix elements of Spec.melF agree, tolerance 0); bosons / quadratures: soundness is proved against the abstract relations (any ring interpretation satisfying CCR / [q,p] = i hbar) but the polynomial Spec (actB / actQuad) is not yet shown to satisfy them: that instance is checked by spec.eq on every generated case',
+    'soundness (fermion: Spec.melF; boson / quadrature, every hbar: Spec.applyOp coefficients on canonical exponent vectors) is proved for the Model run with tolerance 0; with EQ_TOLERANCE the code additionally deletes sums below 1e-8: on the generated inputs these are exact zeros (checked per case: r vs r0), no theorem covers inexact inputs',
     'InteractionOperator branch: correspondence + oracle only (no theorem); reorder: proved for FermionOperator (relabelling of the generators), other classes by correspondence + oracle',
     'termination fuel: noTerm uses fuel len(term)+1; that this fuel never runs out is a consequence of the soundness theorem for tolerance 0 (an exhausted fuel would return the empty dictionary) and is otherwise covered by the correspondence run',
 ]
